@@ -6,9 +6,9 @@ func init() {
 	Register(&Spec{
 		ID:    "C19",
 		Level: "model_checking", CrossSolver: true,
-		Explanation: "differential bounded symbolic execution: on the same symbolic input the three format loaders and autometa.Load are executed in one path; auto's result is asserted equal (format, dimensions, depth, ICC bytes, ICC error-ness) to that of the first specific loader that succeeded, an error without metadata when none did, and its stream must replay the input. Inputs: N arbitrary symbolic bytes, skeleton files of all three formats (with and without ICC) including every truncation, and polyglots (one format's signature followed by another format's body)",
+		Explanation: "differential bounded symbolic execution: on the same symbolic input the three format loaders and autometa.Load are executed in one path; auto's result is asserted equal (format, dimensions, depth, ICC bytes, ICC error-ness) to that of the first specific loader that succeeded, an error without metadata when none did, and its stream must replay the input. Inputs: arbitrary symbolic bytes of every length up to N, skeleton files of all three formats (with and without ICC) including every truncation, and polyglots (one format's signature followed by another format's body)",
 		Bounds: func(tier string) map[string]interface{} {
-			return map[string]interface{}{"arbitrary_bytes_N": 12, "skeletons": "PNG (k<=1), PNG+iCCP, JPEG (k<=1), JPEG + 2 ICC chunks (seq,total <= 3), JPEG with a second, possibly too short frame header, WebP VP8/VP8L/VP8X(+ICCP), each complete and at every truncation length", "polyglots": "3 signatures x 3 bodies", "large": "signature + 4090/5000/9000 (thorough: + 70000) bytes of ancillary data (PNG tEXt chunk with or without IHDR, JPEG COM segments with or without a frame header, WebP VP8X + JUNK chunk, no signature), whole and cut at 4097 bytes: inputs longer than every internal buffer", "outside": "inputs beyond these shapes; zlib stubbed (deterministic in its input)"}
+			return map[string]interface{}{"arbitrary_bytes": "every length 0..16 (thorough: 0..18), all byte values", "skeletons": "PNG (k<=1), PNG+iCCP, JPEG (k<=1), JPEG + 2 ICC chunks (seq,total <= 3), JPEG with a second, possibly too short frame header, WebP VP8/VP8L/VP8X(+ICCP), each complete and at every truncation length", "polyglots": "3 signatures x 3 bodies", "large": "signature + 4090/5000/9000 (thorough: + 70000) bytes of ancillary data (PNG tEXt chunk with or without IHDR, JPEG COM segments with or without a frame header, WebP VP8X + JUNK chunk, no signature), whole and cut at 4097 bytes: inputs longer than every internal buffer", "outside": "inputs beyond these shapes; zlib stubbed (deterministic in its input)"}
 		},
 		Runs: func(tier string, seed int64) []*Run {
 			sizes := int64(3)
@@ -17,7 +17,7 @@ func init() {
 			}
 			return []*Run{
 				{H: sym.Harness{Pkg: "meta/autometa", Func: "VerifHarness_C19_Large", Workers: 14, SetGlobals: map[string]int64{"verifC19Sizes": sizes}}, ExpectReach: []string{"png-wins", "jpeg-wins", "webp-wins", "none"}, SamplePaths: 3},
-				{H: sym.Harness{Pkg: "meta/autometa", Func: "VerifHarness_C19_Arbitrary"}, ExpectReach: []string{"none"}, SamplePaths: 3},
+				{H: sym.Harness{Pkg: "meta/autometa", Func: "VerifHarness_C19_Arbitrary", Workers: 14, MaxPaths: 200000, SetGlobals: map[string]int64{"verifC19N": map[bool]int64{false: 16, true: 18}[tier == "thorough"]}}, ExpectReach: []string{"none", "jpeg-wins"}, SamplePaths: 3},
 				{H: sym.Harness{Pkg: "meta/autometa", Func: "VerifHarness_C19_Skeleton", Workers: 14}, ExpectReach: []string{"png-wins", "jpeg-wins", "webp-wins", "none"}, SamplePaths: 6},
 				{H: sym.Harness{Pkg: "meta/autometa", Func: "VerifHarness_C19_Polyglot"}, ExpectReach: []string{"none"}, SamplePaths: 3},
 				{H: sym.Harness{Pkg: "meta/autometa", Func: "VerifHarness_C19_NegControl"}, NegControl: true},
@@ -29,7 +29,7 @@ func init() {
 		Level: "model_checking", CrossSolver: true,
 		Explanation: "bounded symbolic execution of the loaders on well-formed skeleton files (symbolic header fields) followed by P concrete zero bytes of pixel data, read through a counting source: the number of bytes delivered is asserted <= (offset of the last needed structure, computed from the container layout) + 65536 on every path, and a second load of the file truncated at that offset must give identical metadata",
 		Bounds: func(tier string) map[string]interface{} {
-			return map[string]interface{}{"payload_sizes": "{0, 4096, 70000} quick; adds {1, 300000} thorough", "families": "PNG, PNG+iCCP, JPEG, JPEG+ICC (SOF first / last), WebP VP8/VP8L/VP8X(+ICCP), PNG and JPEG through autometa", "delivery": "unlimited and 1000-byte reads", "outside": "payloads above 300000 bytes (64 MiB): the bound is on what the loader requests, established by the counting source"}
+			return map[string]interface{}{"payload_sizes": "{0, 4096, 70000} quick; adds {1, 300000} thorough", "families": "PNG, PNG+iCCP, JPEG, JPEG+ICC (SOF first / last), WebP VP8/VP8L/VP8X(+ICCP), each through its own loader and through autometa", "delivery": "unlimited and 1000-byte reads", "outside": "payloads above 300000 bytes (64 MiB): the bound is on what the loader requests, established by the counting source"}
 		},
 		Runs: func(tier string, seed int64) []*Run {
 			p := int64(3)
